@@ -57,3 +57,78 @@ pub fn limited(b: &[u8]) -> Cursor<&[u8]> {
     crate::common::alloc::set_limit(4 * b.len() + 64);
     plain(b)
 }
+
+// ---------------------------------------------------------------- C10: fault injection
+/// The k-th stream call (read / read_exact / seek, counted together from 0) fails with an I/O error.
+pub struct FailAt<'a> {
+    pub inner: Cursor<&'a [u8]>,
+    pub k: u32,
+    pub calls: u32,
+    pub fired: bool,
+}
+pub fn fail_at(b: &[u8], start: u64, k: u32) -> FailAt<'_> {
+    let mut c = Cursor::new(b);
+    c.set_position(start);
+    FailAt { inner: c, k, calls: 0, fired: false }
+}
+impl<'a> FailAt<'a> {
+    fn tick(&mut self) -> io::Result<()> {
+        let n = self.calls;
+        self.calls += 1;
+        if n == self.k {
+            self.fired = true;
+            return Err(io::Error::from(io::ErrorKind::Other));
+        }
+        Ok(())
+    }
+}
+impl<'a> Read for FailAt<'a> {
+    fn read(&mut self, buf: &mut [u8]) -> io::Result<usize> {
+        self.tick()?;
+        self.inner.read(buf)
+    }
+    fn read_exact(&mut self, buf: &mut [u8]) -> io::Result<()> {
+        self.tick()?;
+        self.inner.read_exact(buf)
+    }
+}
+impl<'a> Seek for FailAt<'a> {
+    fn seek(&mut self, pos: SeekFrom) -> io::Result<u64> {
+        self.tick()?;
+        self.inner.seek(pos)
+    }
+    fn stream_position(&mut self) -> io::Result<u64> {
+        self.tick()?;
+        Ok(self.inner.position())
+    }
+}
+
+/// A reader that legally transfers at most `c` bytes per `read` call and reports one interrupted
+/// call; `read_exact` is NOT overridden, so the standard retry loop is what runs.
+pub struct Chunked<'a> {
+    pub inner: Cursor<&'a [u8]>,
+    pub c: usize,
+    pub interrupt_at: u32,
+    pub calls: u32,
+}
+pub fn chunked(b: &[u8], start: u64, c: usize, interrupt_at: u32) -> Chunked<'_> {
+    let mut cur = Cursor::new(b);
+    cur.set_position(start);
+    Chunked { inner: cur, c, interrupt_at, calls: 0 }
+}
+impl<'a> Read for Chunked<'a> {
+    fn read(&mut self, buf: &mut [u8]) -> io::Result<usize> {
+        let n = self.calls;
+        self.calls += 1;
+        if n == self.interrupt_at {
+            return Err(io::Error::from(io::ErrorKind::Interrupted));
+        }
+        let m = if buf.len() > self.c { self.c } else { buf.len() };
+        self.inner.read(&mut buf[..m])
+    }
+}
+impl<'a> Seek for Chunked<'a> {
+    fn seek(&mut self, pos: SeekFrom) -> io::Result<u64> {
+        self.inner.seek(pos)
+    }
+}
